@@ -20,6 +20,36 @@ use vcommon::*;
 const IMPORTS: &str =
     "From Verif Require Import Lib.Bytes Lib.Obs Lib.HeaderMap Model.Frame Model.WebServer Model.WebClient.";
 
+/// Cases are collected and written at the end in a stride-16 order: the driver evaluates the
+/// model in 16 shards of consecutive cases and the large sized cases are generated in one block;
+/// case i of the run goes to shard i mod 16 so that the shards stay balanced.
+struct OutB {
+    inner: Out,
+    cases: Vec<Option<Case>>,
+}
+impl OutB {
+    fn new(dir: &str) -> OutB {
+        OutB { inner: Out::new(dir), cases: vec![] }
+    }
+    fn hist(&mut self, name: &str, bucket: impl ToString) {
+        self.inner.hist(name, bucket)
+    }
+    fn push(&mut self, c: Case) {
+        self.cases.push(Some(c));
+    }
+    fn finish(mut self, imports: &str, rule: &str, extra: Value) {
+        let n = self.cases.len();
+        for j in 0..16 {
+            let mut i = j;
+            while i < n {
+                self.inner.push(self.cases[i].take().unwrap());
+                i += 16;
+            }
+        }
+        self.inner.finish(imports, rule, extra)
+    }
+}
+
 // ------------------------------------------------------------------ scripted inner body
 #[derive(Clone, Debug)]
 struct InnerErr;
@@ -72,6 +102,8 @@ impl HttpBody for CountBody {
 enum E {
     P,
     D(Vec<u8>),
+    /// a data chunk that is one whole frame: flag, payload length, fill byte (compact for Coq)
+    Fr(u8, usize, u8),
     T(Vec<(String, Vec<u8>)>),
     X,
 }
@@ -89,6 +121,7 @@ fn to_ev(e: &E) -> Ev<InnerErr> {
     match e {
         E::P => Ev::Pending,
         E::D(d) => Ev::Data(d.clone()),
+        E::Fr(f, n, b) => Ev::Data(frame(*f, &vec![*b; *n])),
         E::T(t) => Ev::Trailers(pairs_to_map(t)),
         E::X => Ev::Err(InnerErr),
     }
@@ -97,6 +130,7 @@ fn ev_coq(e: &E) -> String {
     match e {
         E::P => "EvPending".into(),
         E::D(d) => format!("(EvData {})", coq_bytes(d)),
+        E::Fr(f, n, b) => format!("(EvData (frame {} (rep {} {})))", f, n, b),
         E::T(t) => format!("(EvTrailers {})", coq_hm(&pairs_to_map(t))),
         E::X => "EvErr".into(),
     }
@@ -108,6 +142,7 @@ fn ev_json(e: &E) -> Value {
     match e {
         E::P => json!("p"),
         E::D(d) => json!({ "d": hex(d) }),
+        E::Fr(f, n, b) => json!({ "frame": [f, n, b] }),
         E::T(t) => json!({"t": t.iter().map(|(k, v)| json!([k, hex(v)])).collect::<Vec<_>>()}),
         E::X => json!("x"),
     }
@@ -128,6 +163,8 @@ fn ev_from_json(v: &Value) -> E {
         E::X
     } else if let Some(d) = v.get("d") {
         E::D(unhex(d.as_str().unwrap()))
+    } else if let Some(f) = v.get("frame") {
+        E::Fr(f[0].as_u64().unwrap() as u8, f[1].as_u64().unwrap() as usize, f[2].as_u64().unwrap() as u8)
     } else {
         E::T(pairs_from_json(&v["t"]))
     }
@@ -338,7 +375,7 @@ fn run_client(evs: &[E]) -> Observed {
 /// The response body read by a hyper-like consumer: `is_end_stream()` is asked before the first
 /// poll and after every data frame, and the consumer stops when it answers true.  Afterwards the
 /// body is drained on (what an `is_end_stream() == true` body must not have: more frames).
-fn case_client_hyper(out: &mut Out, kind: &str, evs: &[E], mode: u8, judged: bool) {
+fn case_client_hyper(out: &mut OutB, kind: &str, evs: &[E], mode: u8, judged: bool) {
     let polls = Arc::new(AtomicUsize::new(0));
     let ends = Arc::new(AtomicUsize::new(0));
     let (sb, _) = ScriptBody::new(evs.iter().map(to_ev).collect());
@@ -576,10 +613,10 @@ fn bucket(n: usize) -> &'static str {
     }
 }
 
-fn case_client(out: &mut Out, kind: &str, evs: &[E], expect: &Expect) {
+fn case_client(out: &mut OutB, kind: &str, evs: &[E], expect: &Expect) {
     let o = run_client(evs);
-    let body_len: usize = evs.iter().map(|e| if let E::D(d) = e { d.len() } else { 0 }).sum();
-    let chunks = evs.iter().filter(|e| matches!(e, E::D(_))).count();
+    let body_len: usize = evs.iter().map(|e| match e { E::D(d) => d.len(), E::Fr(_, n, _) => n + 5, _ => 0 }).sum();
+    let chunks = evs.iter().filter(|e| matches!(e, E::D(_) | E::Fr(..))).count();
     out.hist("client.body_len", bucket(body_len));
     out.hist("client.chunks", bucket(chunks));
     out.hist("client.pending_events", bucket(evs.iter().filter(|e| matches!(e, E::P)).count()));
@@ -624,7 +661,7 @@ fn case_client(out: &mut Out, kind: &str, evs: &[E], expect: &Expect) {
 }
 
 // ------------------------------------------------------------------ request direction (light)
-fn case_client_request(out: &mut Out, kind: &str, evs: &[E], version: Version) {
+fn case_client_request(out: &mut OutB, kind: &str, evs: &[E], version: Version) {
     let seen: Seen = Arc::new(Mutex::new(None));
     let (dummy, _) = ScriptBody::new(vec![]);
     let body = CountBody { inner: dummy, polls: Default::default(), ends: Default::default(), eos_mode: 0 };
@@ -844,7 +881,7 @@ fn sprinkle(r: &mut Rng, evs: Vec<E>) -> Vec<E> {
     v
 }
 
-fn all_cut_sets(out: &mut Out, kind: &str, b: &Body) {
+fn all_cut_sets(out: &mut OutB, kind: &str, b: &Body) {
     let bytes = b.bytes();
     let n = bytes.len();
     assert!(n <= 15);
@@ -853,7 +890,7 @@ fn all_cut_sets(out: &mut Out, kind: &str, b: &Body) {
         case_client(out, kind, &chunks_at(&bytes, &cuts), &b.valid());
     }
 }
-fn single_cuts(out: &mut Out, kind: &str, b: &Body, r: &mut Rng, pending: bool) {
+fn single_cuts(out: &mut OutB, kind: &str, b: &Body, r: &mut Rng, pending: bool) {
     let bytes = b.bytes();
     for c in 1..bytes.len() {
         let mut evs = chunks_at(&bytes, &[c]);
@@ -863,7 +900,7 @@ fn single_cuts(out: &mut Out, kind: &str, b: &Body, r: &mut Rng, pending: bool) 
         case_client(out, kind, &evs, &b.valid());
     }
 }
-fn double_cuts(out: &mut Out, kind: &str, b: &Body, r: &mut Rng, budget: usize) {
+fn double_cuts(out: &mut OutB, kind: &str, b: &Body, r: &mut Rng, budget: usize) {
     let bytes = b.bytes();
     let n = bytes.len();
     if n < 3 {
@@ -884,7 +921,7 @@ fn double_cuts(out: &mut Out, kind: &str, b: &Body, r: &mut Rng, budget: usize) 
         }
     }
 }
-fn truncations(out: &mut Out, b: &Body, r: &mut Rng) {
+fn truncations(out: &mut OutB, b: &Body, r: &mut Rng) {
     let bytes = b.bytes();
     let bounds = b.boundaries();
     for cut in 0..bytes.len() {
@@ -902,7 +939,7 @@ fn truncations(out: &mut Out, b: &Body, r: &mut Rng) {
     }
 }
 
-fn malformed(out: &mut Out, r: &mut Rng) {
+fn malformed(out: &mut OutB, r: &mut Rng) {
     let b = gen_body(r);
     let bytes = b.bytes();
     let mb = b.msg_bytes();
@@ -1015,7 +1052,7 @@ fn malformed(out: &mut Out, r: &mut Rng) {
     case_client(out, kind, &evs, &expect);
 }
 
-fn inner_events(out: &mut Out, r: &mut Rng) {
+fn inner_events(out: &mut OutB, r: &mut Rng) {
     let b = gen_body(r);
     let bytes = b.bytes();
     match r.below(4) {
@@ -1057,7 +1094,170 @@ fn inner_events(out: &mut Out, r: &mut Rng) {
     }
 }
 
-fn corpus(out: &mut Out) {
+// ------------------------------------------------------------------ size-boundary mining
+/// Every integer constant >= 64 of the non-test part of tonic-web/src/{call,service}.rs: literals
+/// (decimal, hex, binary, `_` separators, type suffixes) and products / shifts of literals such as
+/// `8 * 1024` or `1 << 13`.  Thresholds that appear in the code later are picked up by themselves.
+fn mine_constants() -> Vec<usize> {
+    let repo = std::env::var("VERIF_REPO").unwrap_or_else(|_| "/repo".to_string());
+    let mut ks = std::collections::BTreeSet::new();
+    for f in ["tonic-web/src/call.rs", "tonic-web/src/service.rs", "tonic-web/src/client.rs"] {
+        let Ok(src) = std::fs::read_to_string(format!("{}/{}", repo, f)) else { continue };
+        let src = src.split("#[cfg(test)]").next().unwrap_or("").to_string();
+        // drop comments and string literals
+        let mut clean = String::new();
+        for line in src.lines() {
+            let line = line.split("//").next().unwrap_or("");
+            let mut in_str = false;
+            for c in line.chars() {
+                if c == '"' {
+                    in_str = !in_str;
+                    clean.push(' ');
+                } else if !in_str {
+                    clean.push(c);
+                } else {
+                    clean.push(' ');
+                }
+            }
+            clean.push('\n');
+        }
+        // tokens: numbers and operators
+        let b: Vec<char> = clean.chars().collect();
+        let mut toks: Vec<Result<u64, char>> = vec![];
+        let mut i = 0;
+        while i < b.len() {
+            let c = b[i];
+            if c.is_ascii_digit() && (i == 0 || !(b[i - 1].is_alphanumeric() || b[i - 1] == '_')) {
+                let mut j = i;
+                while j < b.len() && (b[j].is_alphanumeric() || b[j] == '_') {
+                    j += 1;
+                }
+                let t: String = b[i..j].iter().filter(|c| **c != '_').collect();
+                let t = t.trim_end_matches("usize").trim_end_matches("u64").trim_end_matches("u32").trim_end_matches("u16").trim_end_matches("u8").trim_end_matches("i32").to_string();
+                let v = if let Some(h) = t.strip_prefix("0x") {
+                    u64::from_str_radix(h, 16).ok()
+                } else if let Some(h) = t.strip_prefix("0b") {
+                    u64::from_str_radix(h, 2).ok()
+                } else {
+                    t.parse::<u64>().ok()
+                };
+                if let Some(v) = v {
+                    toks.push(Ok(v));
+                }
+                i = j;
+            } else if c == '*' {
+                toks.push(Err('*'));
+                i += 1;
+            } else if c == '<' && i + 1 < b.len() && b[i + 1] == '<' {
+                toks.push(Err('<'));
+                i += 2;
+            } else if c.is_whitespace() {
+                i += 1;
+            } else {
+                toks.push(Err('.'));
+                i += 1;
+            }
+        }
+        let mut k = 0;
+        while k < toks.len() {
+            if let Ok(mut v) = toks[k] {
+                ks.insert(v);
+                while k + 2 < toks.len() {
+                    match (toks[k + 1], toks[k + 2]) {
+                        (Err('*'), Ok(w)) => {
+                            ks.insert(w);
+                            v = v.saturating_mul(w);
+                        }
+                        (Err('<'), Ok(w)) if w < 40 => v <<= w,
+                        _ => break,
+                    }
+                    k += 2;
+                }
+                ks.insert(v);
+            }
+            k += 1;
+        }
+    }
+    let mut v: Vec<usize> = ks.into_iter().filter(|k| *k >= 64 && *k <= (1 << 20)).map(|k| k as usize).collect();
+    v.sort();
+    // the largest thresholds matter most; bound the work
+    if v.len() > 6 {
+        v = v[v.len() - 6..].to_vec();
+    }
+    v
+}
+/// the sizes worth trying around a threshold K
+fn sizes_around(k: usize, dense: bool) -> Vec<usize> {
+    let mut v: Vec<usize> = vec![];
+    let lo = k.saturating_sub(70);
+    v.extend(lo..=k + 10);
+    let w = if dense { 12 } else { 6 };
+    for c in [k * 3 / 4, k * 4 / 3, k / 2, k * 2] {
+        v.extend(c.saturating_sub(w)..=c + w);
+    }
+    v.sort();
+    v.dedup();
+    v
+}
+/// trailers whose frame is 43 bytes, about 300 bytes, and longer than `k`
+fn sized_trailers(which: usize, k: usize) -> Vec<(String, Vec<u8>)> {
+    match which {
+        0 => vec![(s("grpc-status"), b"0".to_vec()), (s("grpc-message"), b"12345678".to_vec())],
+        1 => vec![(s("grpc-status"), b"13".to_vec()), (s("grpc-message"), vec![b'm'; 262])],
+        _ => vec![(s("grpc-status"), b"2".to_vec()), (s("x-pad"), vec![b'p'; k + 50])],
+    }
+}
+/// response bodies whose message / chunk sizes sit around every numeric threshold of the source,
+/// read by the plain consumer and by the hyper-like one
+fn mined_sizes(out: &mut OutB, r: &mut Rng, thorough: bool) -> Vec<usize> {
+    let ks = mine_constants();
+    let fill = 0x61u8;
+    let one = |out: &mut OutB, k: usize, n: usize, layout: usize, tw: usize, hyper: bool| {
+        let tl = sized_trailers(tw, k);
+        let tf = tframe(&tl);
+        let msgs = frame(1, &vec![fill; n]);
+        let kk = k.min(n);
+        let mut evs = match layout {
+            0 => vec![E::Fr(1, n, fill)],
+            1 => vec![E::D(msgs[..5].to_vec()), E::D(vec![fill; n])],
+            _ => vec![E::D(msgs[..5].to_vec()), E::D(vec![fill; kk]), E::P, E::D(vec![fill; n - kk])],
+        };
+        if n <= 300 && layout == 0 {
+            // small enough to spell out: message and trailers in ONE chunk
+            evs = vec![E::D([msgs.clone(), tf.clone()].concat())];
+        } else {
+            evs.push(E::D(tf));
+        }
+        if hyper {
+            case_client_hyper(out, "eos.client_sized", &evs, 1, true);
+        } else {
+            case_client(out, "chunking.sized", &evs, &Expect::Valid { msgs, trailers: tl });
+        }
+    };
+    for &k in &ks {
+        out.hist("sized.mined_constant", k);
+        for (idx, n) in sizes_around(k, thorough).into_iter().enumerate() {
+            let near = n + 80 >= k && n <= k + 10;
+            if !(thorough || near || idx % 3 == 0) {
+                continue;
+            }
+            let tw = if idx % 11 == 0 { 2 } else { idx % 2 };
+            one(out, k, n, idx % 3, tw, false);
+            one(out, k, n, (idx + 1) % 3, tw, true);
+            if thorough {
+                one(out, k, n, (idx + 2) % 3, (tw + 1) % 2, true);
+            }
+        }
+    }
+    let maxk = ks.iter().copied().max().unwrap_or(8192);
+    for i in 0..(if thorough { 250 } else { 60 }) {
+        let n = r.below(3 * maxk as u64 + 1) as usize;
+        one(out, *r.pick(&ks), n, r.below(3) as usize, (i % 7 == 0) as usize * 2 + (i % 2) * ((i % 7 != 0) as usize), i % 2 == 0);
+    }
+    ks
+}
+
+fn corpus(out: &mut OutB) {
     let hi = frame(0, b"hi");
     let t5 = vec![(s("grpc-status"), b"5".to_vec()), (s("grpc-message"), b"nf".to_vec())];
     // F-C17a: message and trailers in one chunk
@@ -1193,7 +1393,7 @@ fn corpus(out: &mut Out) {
 }
 
 /// http::HeaderMap cannot hold more than 24576 distinct names: `append` panics
-fn header_map_limit(out: &mut Out) {
+fn header_map_limit(out: &mut OutB) {
     for n in [24_575u32, 24_576, 24_577] {
         let mut blk = Vec::with_capacity(n as usize * 9);
         for i in 0..n {
@@ -1225,7 +1425,7 @@ fn header_map_limit(out: &mut Out) {
 
 fn main() {
     let a = args();
-    let mut out = Out::new(&a.out);
+    let mut out = OutB::new(&a.out);
     let mut r = Rng::new(a.seed);
 
     if let Some(f) = &a.replay {
@@ -1246,6 +1446,7 @@ fn main() {
 
     corpus(&mut out);
     header_map_limit(&mut out);
+    let mined = mined_sizes(&mut out, &mut r, a.thorough);
 
     let t = a.thorough;
     // ---- every chunking of small bodies -------------------------------------------------------
@@ -1353,6 +1554,6 @@ fn main() {
     out.finish(
         IMPORTS,
         "client response bodies through the real GrpcWebClientService: corpus (witnesses F-C17a..g, edges), every chunking (all 2^(n-1) cut sets) of small bodies, every single cut and all/many double cuts of generated bodies, random bodies (0-4 message frames, flags 0/1, payloads 0..40 and some 64..200, trailers with grpc-status / grpc-message containing ':' and spaces / repeated x-k / -bin values) with random cut sets, Pending anywhere and empty chunks, truncation at every byte (inside a frame: must fail; between frames: recorded), malformed stream (bad flags, stray bytes, data or a second trailers frame after the trailers, bad trailer lines, wrong length prefixes), inner body errors and HTTP trailers. Oracle: bytes and trailers that were encoded by the harness itself. Non-trivial = non-empty body; distinct = distinct (kind, model expression).",
-        json!({}),
+        json!({"mined_size_thresholds": mined}),
     );
 }
